@@ -7,7 +7,7 @@ import RzilVerif.Props.C13
   2. `tReset_clean`; 3. `insn_entry_clean`, `insn_history_free`, `insn_exit_clean`;
   4. `reachable_WF`, `clean_after_*`, `history_free_partial` / `cstmt_history_free_partial`;
   6. `history_free_fixed` (repaired machine, all histories);
-  5. (last, `section KnownDefect`) everything that depends on the two known defects, with the witnesses.
+  5. (last, `section Repaired`) facts about the regenerated tables after the two repairs in /repo, and the full-strength statement `history_free_full`.
   Well-formedness (`TState.WF`): the model's `Flags.on` is a list of arbitrary strings; the theorems are about states
   whose `on` holds only settable attributes — which includes every reachable state (`reachable_WF`).
 -/
@@ -27,7 +27,7 @@ theorem hyb_count_not_reset : "hybrid_op_count" ∉ Gen.holderClearCleared := by
 
 theorem insn_resets : Gen.insnResetBeforeEachPart = true ∧ Gen.insnResetInFinally = true := by decide
 
-theorem cstmt_reset_after_success : Gen.cStmtResetAfterSuccess = true := by decide
+theorem cstmt_reset_after_success : (Gen.cStmtResetAfterSuccess || Gen.cStmtResetInFinally) = true := by decide
 
 theorem sub_fresh : Gen.subRoutineFreshTransformer = true := by decide
 
@@ -560,52 +560,27 @@ theorem stepFixed_outputs_of_core {s s' : TState} (h : s.core = s'.core) (c : Ca
 theorem history_free_fixed (h : List Call) (c : Call) : lastOutputsFixed h c = lastOutputsFixed [] c :=
   stepFixed_outputs_of_core (runHistoryFixed_pristine (s := TState.fresh) rfl h) c
 
-/-! ## 5. Dependants of the known defects
-    (`compile_c_stmt` does not reset in a `finally`; the `preds_written` leak has been repaired in the source).
-    These are TRUE on the current source and stop compiling when it is repaired. Nothing above depends on them. -/
--- BEGIN KNOWN-DEFECT SECTION
-section KnownDefect
+/-! ## 5. The repaired source
+    Both session defects found by this check have been repaired in `/repo` (`compile_c_stmt` now resets in a `finally`;
+    `preds_written` is per instance and cleared by `reset_flags`).  The facts below are about the REGENERATED tables: they
+    stop compiling if either repair is undone, and with them the full-strength statement. -/
+section Repaired
 
-theorem cstmt_no_finally : Gen.cStmtResetInFinally = false := by decide
+theorem cstmt_finally : Gen.cStmtResetInFinally = true := by decide
 
-/-- a failing `compile_c_stmt` leaves the state as the exception left it -/
-theorem stepCStmt_failure (s : TState) (b : Beh) (hb : b.failsAfter ≠ none) : (stepCStmt s b).1 = (runBeh s b).1 := by
-  have : (runBeh s b).2.isSome = false := by rw [runBeh_out_isSome]; cases h : b.failsAfter <;> simp_all
+/-- `compile_c_stmt` always ends with a reset, whether the transformation succeeded or raised -/
+theorem stepCStmt_eq (s : TState) (b : Beh) : stepCStmt s b = (tReset (runBeh s b).1, [(runBeh s b).2]) := by
   unfold stepCStmt
   cases h : runBeh s b with
-  | mk s' out =>
-    rw [h] at this
-    cases out with
-    | none => simp [cstmt_no_finally]
-    | some o => cases this
+  | mk s' out => cases out <;> simp [cstmt_finally]
 
-example : bFail.failsAfter ≠ none := by decide
+/-- after a failed `compile_c_stmt` the next statement's output is what a fresh instance gives (the former witness of
+    the defect) -/
+theorem cstmt_after_failure_clean :
+    lastOutputs [.cStmt bFail] (.cStmt bOk) = lastOutputs [] (.cStmt bOk) := by decide
 
-/-- After a failed `compile_c_stmt` the next statement's output contains the stale operands, immediates and
-    attributes of the failed one. -/
-theorem cstmt_after_failure_witness :
-    lastOutputs [.cStmt bFail] (.cStmt bOk) =
-      [some { ops := ["stale1", "stale2", "op"], immSets := ["imm_stale"], leftover := [], tmps := 1,
-              attrs := ["HEX_IL_INSN_ATTR_MEM_READ"] }] ∧
-    lastOutputs [] (.cStmt bOk) =
-      [some { ops := ["op"], immSets := [], leftover := [], tmps := 1, attrs := ["HEX_IL_INSN_ATTR_NONE"] }] := by
-  decide
-
-/-- Full-strength statement (all histories) — FALSE on the current source. Stated, not claimed. -/
+/-- Full-strength statement (all histories, failing calls included, all entry points). -/
 def history_free_full_statement : Prop := ∀ (h : List Call) (c : Call), lastOutputs h c = lastOutputs [] c
-
-theorem history_free_full_statement_false : ¬ history_free_full_statement := by
-  intro h
-  have := h [.cStmt bFail] (.cStmt bOk)
-  rw [cstmt_after_failure_witness.1, cstmt_after_failure_witness.2] at this
-  exact absurd this (by decide)
-
-/-- Since the repair of `preds_written` (per instance, cleared by `reset_flags`) nothing recorded by a sub-routine's own
-    transformer, an earlier instruction or an earlier statement reaches later outputs. -/
-theorem preds_isolated_witnesses :
-    lastOutputs [.subRoutine bP0] (.cStmt bPd) = lastOutputs [] (.cStmt bPd) ∧
-    lastOutputs [.insn [bP0]] (.insn [bPd]) = lastOutputs [] (.insn [bPd]) ∧
-    lastOutputs [.cStmt bP0] (.subRoutine bPd) = lastOutputs [] (.subRoutine bPd) := by decide
 
 /-! ### consequences of the repaired `preds_written` (TRUE on the current source; they stop compiling if the clearing
     in `reset_flags` or the per-instance initialisation is removed again) -/
@@ -641,7 +616,38 @@ theorem sub_history_free_every_history (h : List Call) (b : Beh) :
   show (stepSub _ b).2 = (stepSub _ b).2
   rw [stepSub_eq, stepSub_eq]
 
-end KnownDefect
--- END KNOWN-DEFECT SECTION
+theorem resetFlagsFixed_eq (f : Flags) : resetFlagsFixed f = resetFlags f := by
+  have h := resetFlags_preds_nil f
+  cases hr : resetFlags f with
+  | mk on preds => simp only [resetFlagsFixed, hr]; rw [hr] at h; simp only at h; rw [h]
+
+theorem tResetFixed_eq_tReset (s : TState) : tResetFixed s = tReset s := by
+  simp only [tResetFixed, resetFlagsFixed_eq, tReset_eq]
+
+theorem tResetFixed_fun : tResetFixed = tReset := funext tResetFixed_eq_tReset
+
+/-- the machine as the code has it IS the repaired machine -/
+theorem step_eq_stepFixed (s : TState) (c : Call) : step s c = stepFixed s c := by
+  cases c with
+  | cStmt b => show stepCStmt s b = stepCStmtFixed s b; rw [stepCStmt_eq, stepCStmtFixed, tResetFixed_eq_tReset]
+  | insn ps =>
+    show stepInsn s ps = stepInsnFixed s ps
+    rw [stepInsn_eq, stepInsnFixed, tResetFixed_fun, stepInsnParts_eq_G]
+  | subRoutine b => show stepSub s b = stepSubFixed s b; rw [stepSub_eq]; rfl
+
+theorem runHistory_eq_fixed (s : TState) (h : List Call) : (runHistory s h).1 = runHistoryFixed s h := by
+  induction h generalizing s with
+  | nil => rfl
+  | cons c cs ih => rw [runHistory_cons, runHistoryFixed, ← step_eq_stepFixed]; exact ih _
+
+/-- **History freedom, full strength, of the machine as the code has it**: for ALL histories over the three entry
+    points, failing calls included, every call produces the outputs it produces on a fresh instance. -/
+theorem history_free_full : history_free_full_statement := by
+  intro h c
+  show (step (runHistory TState.fresh h).1 c).2 = (step (runHistory TState.fresh []).1 c).2
+  rw [step_eq_stepFixed, step_eq_stepFixed, runHistory_eq_fixed, runHistory_eq_fixed]
+  exact history_free_fixed h c
+
+end Repaired
 
 end Rzil
